@@ -834,11 +834,12 @@ vrandom = _Module("random", randint=lambda a, b: _s().randint(a, b))
 TOOL_ID = 3
 _traced_codes = set()
 _monitoring_on = False
+_no_preempt = 0  # > 0 while the running thread is inside a region the scheduler must not interrupt (a real import lock is held)
 
 
 def _on_line(code, line):
     s = SCHED
-    if s is None or not s.line_points or s.ending:
+    if s is None or not s.line_points or s.ending or _no_preempt:
         return None
     t = s.current
     if t is None or t.ident != _thread.get_ident():
@@ -862,7 +863,7 @@ def _on_jump(code, src, dst):
     if dst >= src:
         return None
     s = SCHED
-    if s is None or s.ending:
+    if s is None or s.ending or _no_preempt:
         return None
     t = s.current
     if t is None or t.ident != _thread.get_ident():
